@@ -52,3 +52,26 @@ def _f7(v):
     c = v["case"]
     return (v["oracle"] == "C09.reason_consistent" and c.get("min") is not None and c.get("count") is None
             and c.get("pct") in (None, "None") and c.get("f", 0) > 0 and v["detail"].get("reason") == "ALL_COMPLETED")
+
+
+@matcher("F15_empty_or_allnone_dropped")
+def _f15(v):
+    return v["oracle"] == "C20.roundtrip_not_equal" and v["detail"].get("finding") in (
+        "allnone_error_dropped", "empty_wait_details_dropped", "empty_chained_details_dropped")
+
+
+def _has_epoch_ms0(o):
+    if isinstance(o, dict):
+        for k, x in o.items():
+            if k.endswith("_timestamp") and isinstance(x, int) and 0 <= x < 1000:
+                return True
+            if _has_epoch_ms0(x):
+                return True
+    if isinstance(o, list):
+        return any(_has_epoch_ms0(x) for x in o)
+    return False
+
+
+@matcher("F20_epoch_ms0_not_converted")
+def _f20(v):
+    return v["oracle"] == "C20.roundtrip_failed_or_ill_typed" and v["case"].get("variant") == "jback" and _has_epoch_ms0(v["case"].get("obj"))
